@@ -75,6 +75,10 @@ def gen_defn(rng, kind, i=0):
         if i % 4 == 0:
             # the definition-time option of ui.Model that rewrites the expressions before compilation
             d["proactive_simplify"] = True
+        if i % 4 == 2 and d["control"]:
+            # a control input that is known exactly: process noise of exactly zero
+            d["process_noise"][rng.choice(sorted(d["process_noise"]))] = 0.0
+            d.pop("noise_as", None)
         return d
     if kind == "fit":
         return gen.contractive_program(rng, n_state=(1, 2), n_control=(1, 2), n_calib=(0, 1),
@@ -94,6 +98,8 @@ def run_unit(unit, ctx):
         R.stats.inc("programs_with_angle_wrap_idioms")
     if defn.get("proactive_simplify"):
         R.stats.inc("programs_with_proactive_simplify")
+    if any(v_ == 0.0 for v_ in defn["process_noise"].values()):
+        R.stats.inc("programs_with_zero_process_noise")
     fp = gen.fingerprint([defn, kind])
     R.fps_all.append(fp)
     if len(defn["control"]) >= 1 and len(defn["state"]) >= 2:
